@@ -102,7 +102,7 @@ public:
 				container[i].~T();
 		} else {
 			for (size_t i = _size; i < new_size; i++)
-				new (&container[i]) T(std::forward<Args>(args)...);
+				new (&container[i]) T(args...);
 		}
 		_size = new_size;
 	}
